@@ -11,6 +11,7 @@
 -/
 import Hs.Model.ZincEnc
 import Hs.Model.ZincParse
+import Hs.Lemmas.ZincRtWf
 namespace Hs.C01
 open Hs Hs.Zinc
 
@@ -99,5 +100,264 @@ theorem rt_bool (b : Bool) : fromBytes (encode (.bool b)) = .ok (.bool b) := by
   obtain ⟨v, hv, hp⟩ := isOk_eq (h b)
   cases v <;> simp at hp
   rw [hv, hp]
+
+
+/-! ## The ladder
+
+Helper lemmas live in `Hs/Lemmas/ZincRt*.lean`.  Vocabulary used below:
+* `At s rest` — the scanner `s` is positioned at `rest`: current byte = head of `rest`, unread bytes
+  (peek stash first, then the reader) = its tail; at the end of the input `is_eof` is up and nothing is unread
+  (`Hs/Lemmas/ZincRtScan.lean`; `Scan.make bs` satisfies `At · bs`).
+* `Delim rest` — what follows a value in writer output: nothing, `,` `]` `}` newline, or a space followed by
+  the lower-case first letter of a tag name.
+* `Post s rest` — `At s rest`, and the peek stash is empty unless `rest` starts with a space (the Ref reader
+  peeks one byte past a space).
+* `RdVal v` — the framing statement of a value: for every scanner at `enc v true ++ rest` with `Delim rest`,
+  enough fuel (`4·|enc v| + 8`) and `depth + nestV v < 64`, reading the first token and running `parseValue`
+  gives the lexical image of `v` and leaves the scanner at `rest`.
+-/
+
+/-! ### `lexImage` is the function the lemma files use -/
+
+mutual
+theorem lexImage_eq : ∀ v : Val, lexImage v = lexImg v
+  | .num n => by simp [lexImage, lexImg, lexNum, lexNumI]
+  | .coord a b => by simp [lexImage, lexImg]
+  | .dateTime t => by simp [lexImage, lexImg]
+  | .list xs => by simp [lexImage, lexImg, lexVals_eq xs]
+  | .dict d => by simp [lexImage, lexImg, lexTags_eq d]
+  | .grid md cols rows ver => by simp [lexImage, lexImg, lexOTags_eq md, lexCols_eq cols, lexRows_eq rows]
+  | .null => by simp [lexImage, lexImg]
+  | .remove => by simp [lexImage, lexImg]
+  | .marker => by simp [lexImage, lexImg]
+  | .bool _ => by simp [lexImage, lexImg]
+  | .na => by simp [lexImage, lexImg]
+  | .str _ => by simp [lexImage, lexImg]
+  | .uri _ => by simp [lexImage, lexImg]
+  | .ref _ _ => by simp [lexImage, lexImg]
+  | .sym _ => by simp [lexImage, lexImg]
+  | .date _ => by simp [lexImage, lexImg]
+  | .time _ => by simp [lexImage, lexImg]
+  | .xstr _ _ => by simp [lexImage, lexImg]
+theorem lexVals_eq : ∀ xs : Vals, lexVals xs = lexImgs xs
+  | .nil => rfl
+  | .cons v vs => by simp [lexVals, lexImgs, lexImage_eq v, lexVals_eq vs]
+theorem lexTags_eq : ∀ t : Tags, lexTags t = lexImgT t
+  | .nil => rfl
+  | .cons k v t => by simp [lexTags, lexImgT, lexImage_eq v, lexTags_eq t]
+theorem lexOTags_eq : ∀ o : OTags, lexOTags o = lexImgO o
+  | .none => rfl
+  | .some t => by simp [lexOTags, lexImgO, lexTags_eq t]
+theorem lexCols_eq : ∀ c : Cols, lexCols c = lexImgC c
+  | .nil => rfl
+  | .cons n m c => by simp [lexCols, lexImgC, lexOTags_eq m, lexCols_eq c]
+theorem lexRows_eq : ∀ r : Rows, lexRows r = lexImgR r
+  | .nil => rfl
+  | .cons r rs => by simp [lexRows, lexImgR, lexTags_eq r, lexRows_eq rs]
+end
+
+/-! ### rung 1 — UTF-8 -/
+
+/-- the lossy decoder is the identity on encoder output, for every text -/
+theorem rt_utf8 (s : List Char) : lossy (encChars s) = s := lossy_encChars s
+
+/-- every byte of a non-ASCII character's encoding is ≥ 0x80 (byte-oriented loops copy it verbatim) -/
+theorem utf8_high_bytes (c : Char) (h : 128 ≤ c.toNat) : ∀ b ∈ encChar c, 128 ≤ b.toNat := encChar_nonascii c h
+
+/-! ### rung 2 — scanner normal form -/
+
+theorem scan_make_at (bs : List UInt8) : At (Scan.make bs) bs := At_make_all bs
+theorem scan_advance {s : Scan} {b : UInt8} {r : List UInt8} (h : At s (b :: r)) : At s.advance r := h.advance
+theorem scan_read {s : Scan} {b c : UInt8} {r : List UInt8} (h : At s (b :: c :: r)) : s.read = (some c, s.advance) :=
+  h.read
+theorem scan_peek {s : Scan} {b c : UInt8} {r : List UInt8} (h : At s (b :: c :: r)) (hs : s.stash = []) :
+    ∃ s1, s.peek = (some c, s1) ∧ At s1 (b :: c :: r) ∧ s1.stash.length = 1 ∧ s1.lastPeek = c ∧ s1.pos = s.pos :=
+  h.peek0' hs
+
+/-! ### rung 3 — Str, Uri, Ref, Symbol, XStr: every payload, any following text -/
+
+/-- **rt_str**: every `s : List Char` (controls, quotes, backslash, `$`, astral planes), whatever follows -/
+theorem rt_str (s : List Char) (sc : Scan) (rest : List UInt8) (fuel : Nat)
+    (h : At sc (encQuoted s ++ rest)) (hf : (encQuoted s).length ≤ fuel) :
+    ∃ sc', parseStr fuel sc = .ok (s, sc') ∧ At sc' rest := by
+  obtain ⟨sc', e, h', _⟩ := parseStr_rt s sc rest fuel h hf
+  exact ⟨sc', e, h'⟩
+
+/-- **rt_uri**: every text — the writer escapes `` ` `` `\` and control characters, the reader undoes exactly
+these (no hypothesis on the characters is needed in the model) -/
+theorem rt_uri (s : List Char) (sc : Scan) (rest : List UInt8) (fuel : Nat)
+    (h : At sc (encUri s ++ rest)) (hs : sc.stash = []) (hf : (encUri s).length ≤ fuel) :
+    ∃ sc', parseUri fuel sc = .ok (s, sc') ∧ At sc' rest := by
+  obtain ⟨sc', e, h', _⟩ := parseUri_rt s sc rest fuel h hs hf
+  exact ⟨sc', e, h'⟩
+
+/-- **rt_ref** without display name; `RefEnd rest`: nothing, a byte outside the id alphabet other than a
+space, or a space followed by a byte other than `"` -/
+theorem rt_ref_nodis (id : List Char) (hid : isRefId id = true) (sc : Scan) (rest : List UInt8) (fuel : Nat)
+    (h : At sc (64 :: encChars id ++ rest)) (hs : sc.stash = []) (hend : RefEnd rest) (hf : id.length < fuel) :
+    ∃ sc', parseRef fuel sc = .ok (.ref id none, sc') ∧ At sc' rest := by
+  simp only [isRefId, Bool.and_eq_true, Bool.not_eq_eq_eq_not, Bool.not_true, List.isEmpty_eq_false_iff] at hid
+  obtain ⟨sc', e, h', _⟩ := parseRef_nodis id hid.2 hid.1 sc rest fuel h hs hend hf
+  exact ⟨sc', e, h'⟩
+
+/-- **rt_ref** with display name: any `dis`, any following text -/
+theorem rt_ref_dis (id : List Char) (hid : isRefId id = true) (dis : List Char) (sc : Scan) (rest : List UInt8)
+    (fuel : Nat) (h : At sc (64 :: encChars id ++ 32 :: encQuoted dis ++ rest)) (hs : sc.stash = [])
+    (hf : id.length + (encQuoted dis).length < fuel) :
+    ∃ sc', parseRef fuel sc = .ok (.ref id (some dis), sc') ∧ At sc' rest := by
+  simp only [isRefId, Bool.and_eq_true, Bool.not_eq_eq_eq_not, Bool.not_true, List.isEmpty_eq_false_iff] at hid
+  obtain ⟨sc', e, h', _⟩ := parseRef_dis id hid.2 hid.1 dis sc rest fuel h hs hf
+  exact ⟨sc', e, h'⟩
+
+/-- **rt_symbol** -/
+theorem rt_symbol (s : List Char) (hs : isSymBody s = true) (sc : Scan) (rest : List UInt8) (fuel : Nat)
+    (h : At sc (94 :: encChars s ++ rest)) (hst : Stop isRefB rest) (hf : s.length < fuel) :
+    ∃ sc', parseSymbol fuel sc = .ok (.sym s, sc') ∧ At sc' rest :=
+  ⟨_, (parseSymbol_rt s hs sc rest fuel h hst hf).1, (parseSymbol_rt s hs sc rest fuel h hst hf).2⟩
+
+/-- **rt_xstr** (lexer level): capitalised ASCII type other than the reserved `C`, any value text -/
+theorem rt_xstr (ty : List Char) (hty : isXStrType ty = true) (v : List Char) (sc : Scan) (rest : List UInt8)
+    (fuel : Nat) (h : At sc (enc (.xstr ty v) true ++ rest)) (hs : sc.stash = []) (hd : Delim rest)
+    (hf : (enc (.xstr ty v) true).length + 3 ≤ fuel) :
+    ∃ sc', lexRead fuel sc = .ok { sc := sc', tok := .val (.xstr ty v) } ∧ At sc' rest := by
+  obtain ⟨sc', e, hp⟩ := (tok_xstr ty v hty).2 sc rest fuel h hs hd hf
+  exact ⟨sc', by simpa [lexImg] using e, hp.1⟩
+
+/-! ### rung 4 — numbers, dates, times, coordinates (lexer level, after any `Delim`) -/
+
+/-- **rt_number**: finite number whose decimal text is accepted by `f64::from_str` and whose unit is a
+symbol of the unit table (`finiteNumOk`); also NaN, INF, -INF (`numOk`) -/
+theorem rt_number (n : Num) (hn : numOk n = true) (sc : Scan) (rest : List UInt8) (fuel : Nat)
+    (h : At sc (encNum n ++ rest)) (hs : sc.stash = []) (hd : Delim rest) (hf : (encNum n).length + 3 ≤ fuel) :
+    ∃ sc', lexRead fuel sc = .ok { sc := sc', tok := .val (.num (lexNum n)) } ∧ At sc' rest := by
+  have he : enc (.num n) true = encNum n := by rw [enc]
+  obtain ⟨sc', e, hp⟩ := (tok_num n hn).2 sc rest fuel (by rw [he]; exact h) hs hd (by rw [he]; exact hf)
+  refine ⟨sc', ?_, hp.1⟩
+  rw [e, ← lexImage_eq]; rfl
+
+theorem rt_date (d : Date) (hd' : dateOk d = true) (sc : Scan) (rest : List UInt8) (fuel : Nat)
+    (h : At sc (encChars d.txt ++ rest)) (hs : sc.stash = []) (hd : Delim rest) (hf : 2 ≤ fuel) :
+    ∃ sc', lexRead fuel sc = .ok { sc := sc', tok := .val (.date d) } ∧ At sc' rest := by
+  obtain ⟨sc', e, h', _⟩ := lexRead_date d hd' sc rest fuel h hs hd hf
+  exact ⟨sc', e, h'⟩
+
+theorem rt_time (t : Time) (ht : timeOk t = true) (sc : Scan) (rest : List UInt8) (fuel : Nat)
+    (h : At sc (encChars t.txt ++ rest)) (hs : sc.stash = []) (hd : Delim rest) (hf : t.txt.length + 2 ≤ fuel) :
+    ∃ sc', lexRead fuel sc = .ok { sc := sc', tok := .val (.time t) } ∧ At sc' rest := by
+  obtain ⟨sc', e, h', _⟩ := lexRead_time t ht sc rest fuel h hs hd hf
+  exact ⟨sc', e, h'⟩
+
+theorem rt_coord (a b : Flt) (ha : decTextOk a.txt = true) (hb : decTextOk b.txt = true) (sc : Scan)
+    (rest : List UInt8) (fuel : Nat) (h : At sc (enc (.coord a b) true ++ rest)) (hs : sc.stash = [])
+    (hd : Delim rest) (hf : (enc (.coord a b) true).length + 3 ≤ fuel) :
+    ∃ sc', lexRead fuel sc = .ok { sc := sc', tok := .val (lexImage (.coord a b)) } ∧ At sc' rest := by
+  obtain ⟨sc', e, hp⟩ := (tok_coord a b ha hb).2 sc rest fuel h hs hd hf
+  exact ⟨sc', by rw [lexImage_eq]; exact e, hp.1⟩
+
+/-! ### rung 5 — composites, by mutual induction on `Val` -/
+
+/-- **rt_list**: a list frames when its elements do -/
+theorem rt_list (xs : Vals) (h : GoodVs xs) : RdVal (.list xs) := RdVal_list (rdVs xs h)
+
+/-- **rt_dict**: identifier keys in strictly ascending order (`dictOf` rebuilds the same `Tags`) -/
+theorem rt_dict (d : Tags) (hk : keysIdent d = true) (hs : keysSorted d.keys = true) (h : GoodT d) :
+    RdVal (.dict d) := RdVal_dict hk hs (rdT 44 125 st_dict d hk h)
+
+/-- **rt_grid** (nested `<< … >>`): header with meta, columns with meta, rows with Null and missing cells,
+zero rows, nested grids in cells -/
+theorem rt_grid (md : OTags) (cols : Cols) (rows : Rows) (ver : List Char)
+    (h : GoodV (.grid md cols rows ver)) : RdVal (.grid md cols rows ver) := rdV _ h
+
+/-! ### the property for the model -/
+
+/-- **C01 for every value accepted by the decidable well-formedness predicate `wfV`** (defined in
+`Hs/Lemmas/ZincRtWf.lean`): identifier tag and column names, dict / meta / row keys in ascending order, id
+alphabets, capitalised XStr types other than `C`, finite numbers printed as decimal texts with a unit of the
+table, dates and times chrono accepts, coordinates, lists, dicts and grids (at least one column, distinct
+column names, row keys among the columns, meta dicts absent or non-empty, `ver` = "3.0", a single-column grid
+has no missing cell), nested at most 63 deep (`depthOk`: the reader's `MAX_NESTING_DEPTH` is 64).
+
+What is missing for `C01_full` of the property text: `wfV` rejects `dateTime` values (the token lemma for
+timestamps — date, time, offset and zone name through `parseDateTime` — is not proved yet); all other 17 kinds
+are covered at any nesting depth below the reader's limit. -/
+theorem C01_partial : C01_full (fun v => wfV v = true ∧ depthOk v = true) := by
+  intro v h
+  rw [lexImage_eq]
+  exact rt_of_wf v h.1 h.2
+
+
+/-! ### the hypotheses are satisfiable: concrete non-trivial inputs -/
+
+section examples
+
+/-- Str: controls, quote, backslash, `$`, BMP and astral characters -/
+example : ∃ sc', parseStr 100 (Scan.make (encQuoted "a\t\"\\$\x01é€😀".toList ++ [44, 49])) =
+    .ok ("a\t\"\\$\x01é€😀".toList, sc') ∧ At sc' [44, 49] :=
+  rt_str _ _ _ _ (scan_make_at _) (by decide +kernel)
+
+/-- Uri with a control character, a backquote, a backslash and non-ASCII text -/
+example : ∃ sc', parseUri 100 (Scan.make (encUri "http://x/`a\\b\n é😀".toList ++ [93])) =
+    .ok ("http://x/`a\\b\n é😀".toList, sc') ∧ At sc' [93] :=
+  rt_uri _ _ _ _ (scan_make_at _) (by decide +kernel) (by decide +kernel)
+
+example : isRefId "p:demo:r:2a.b-c~d_E".toList = true := by decide
+/-- a Ref followed by a space and a tag name (grid meta): `RefEnd` -/
+example : RefEnd [32, 97, 58] := Or.inr (Or.inr ⟨97, [58], rfl, by decide⟩)
+example : isSymBody "lib:ph.a-b".toList = true := by decide
+example : Stop isRefB [44] := Stop_cons (by decide)
+example : isXStrType "Bin".toList = true := by decide
+example : Delim [32, 100, 105, 115] := Or.inr (Or.inr ⟨100, [105, 115], rfl, by decide⟩)
+example : Delim [10, 62, 62] := Or.inr (Or.inl ⟨10, [62, 62], rfl, by decide⟩)
+
+/-- numbers: negative fraction with a non-ASCII unit of the table, a unit starting with `E`, a plain
+integer, NaN and both infinities -/
+example : numOk ⟨⟨0, "-12.5".toList⟩, some "°F".toList⟩ = true := by decide +kernel
+example : numOk ⟨⟨0, "100000000000000000000".toList⟩, some "EER".toList⟩ = true := by decide +kernel
+example : numOk ⟨⟨0, "0.000001".toList⟩, some "kW/m²".toList⟩ = true := by decide +kernel
+example : numOk ⟨⟨0, "42".toList⟩, none⟩ = true := by decide +kernel
+example : numOk ⟨⟨nanBits, "NaN".toList⟩, none⟩ = true := by decide +kernel
+example : numOk ⟨⟨negInfBits, "-inf".toList⟩, none⟩ = true := by decide +kernel
+
+example : dateOk ⟨2024, 2, 29, "2024-02-29".toList⟩ = true := by decide +kernel
+example : timeOk ⟨1, 2, 3, 500000000, "01:02:03.500".toList⟩ = true := by decide +kernel
+/-- a leap second -/
+example : timeOk ⟨23, 59, 59, 1000000000, "23:59:60".toList⟩ = true := by decide +kernel
+example : decTextOk "-33.8688".toList = true ∧ decTextOk "151.2093".toList = true := by decide +kernel
+
+def exNum : Val := .num ⟨⟨0, "21.5".toList⟩, some "°C".toList⟩
+def exRow1 : Tags := .cons "id".toList (.ref "a-1".toList (some "Room \"1\"".toList))
+  (.cons "temp".toList exNum (.cons "ts".toList (.date ⟨2024, 2, 29, "2024-02-29".toList⟩) .nil))
+def exRow2 : Tags := .cons "temp".toList .null .nil
+def exRow3 : Tags := .nil
+def exInner : Val :=
+  .grid .none (.cons "id".toList .none (.cons "temp".toList .none (.cons "ts".toList .none .nil)))
+    (.cons exRow1 (.cons exRow2 (.cons exRow3 .nil))) "3.0".toList
+/-- a grid with meta (Marker, Str, Ref followed by the next tag), column meta on the first and the last
+column, a nested grid and a list of dicts in cells, Null and missing cells -/
+def exGrid : Val :=
+  .grid (.some (.cons "dis".toList (.str "Site é".toList) (.cons "hisRef".toList (.ref "h".toList none)
+      (.cons "m".toList .marker .nil))))
+    (.cons "a".toList (.some (.cons "dis".toList (.str "A".toList) (.cons "unitRef".toList (.ref "u".toList none) .nil)))
+      (.cons "b".toList .none (.cons "c".toList (.some (.cons "x".toList .marker .nil)) .nil)))
+    (.cons (.cons "a".toList exInner (.cons "c".toList
+        (.list (.cons (.dict (.cons "k".toList (.uri "http://x/`".toList) (.cons "t".toList
+          (.time ⟨1, 2, 3, 0, "01:02:03".toList⟩) .nil))) (.cons (.coord ⟨0, "-1.5".toList⟩ ⟨0, "3".toList⟩)
+          (.cons (.xstr "Bin".toList "a\"b".toList) (.cons (.sym "ph-lib".toList) .nil))))) .nil))
+      (.cons (.cons "b".toList .na .nil) (.cons .nil .nil)))
+    "3.0".toList
+def exZeroRows : Val := .grid .none (.cons "only".toList .none .nil) .nil "3.0".toList
+
+example : wfV exGrid = true ∧ depthOk exGrid = true := by decide +kernel
+example : wfV exZeroRows = true ∧ depthOk exZeroRows = true := by decide +kernel
+example : GoodV exInner := good_of_wf _ (by decide +kernel)
+example : GoodVs (.cons exNum (.cons exInner .nil)) := goods_of_wf _ (by decide +kernel)
+example : keysIdent exRow1 = true ∧ keysSorted exRow1.keys = true ∧ GoodT exRow1 :=
+  ⟨by decide, by decide, goodt_of_wf _ (by decide +kernel)⟩
+
+/-- the round trip of the example grid, through `C01_partial` -/
+example : fromBytes (encode exGrid) = .ok (lexImage exGrid) := C01_partial exGrid (by decide +kernel)
+example : fromBytes (encode exZeroRows) = .ok (lexImage exZeroRows) := C01_partial exZeroRows (by decide +kernel)
+
+end examples
 
 end Hs.C01
